@@ -1,10 +1,16 @@
 package nodeprops
 
 import (
+	"context"
 	"errors"
 	"fmt"
+	"io"
 	"net"
+	"os"
+	"strings"
+	"sync"
 	"sync/atomic"
+	"syscall"
 	"testing"
 	"time"
 
@@ -253,7 +259,7 @@ func c13stall(rep *vh.Report, seed uint64, idx int, j int) {
 }
 
 // c13fail: a transport write error (once or persistent) or an unencodable item at position pos.
-func c13fail(rep *vh.Report, seed uint64, idx int, class string, pos int) {
+func c13fail(rep *vh.Report, seed uint64, idx int, class string, pos int, kind ...int) {
 	if aborted() {
 		return
 	}
@@ -287,14 +293,24 @@ func c13fail(rep *vh.Report, seed uint64, idx int, class string, pos int) {
 			others = append(others, i)
 		}
 	}
+	// the kind of error the transport reports: a plain one, a deadline (net.Error with Timeout() true, what a socket
+	// returns when the peer stops reading), a broken pipe, a short write, EOF, "use of closed connection"
+	werrs := []error{errWrite, os.ErrDeadlineExceeded, syscall.EPIPE, io.ErrShortWrite, io.EOF, net.ErrClosed, &net.OpError{Op: "write", Net: "tcp", Err: os.ErrDeadlineExceeded}}
+	werr := werrs[(idx/3+pos)%len(werrs)]
+	if len(kind) > 0 {
+		werr = werrs[kind[0]%len(werrs)]
+	}
+	if strings.HasPrefix(class, "werr") {
+		rep.Count("werr_kind:"+werr.Error(), 1)
+	}
 	switch class {
 	case "werr-once":
-		n.trs[victim].FailWriteAt(n.trs[victim].WriteCalls()+1, errWrite, false)
+		n.trs[victim].FailWriteAt(n.trs[victim].WriteCalls()+1, werr, false)
 	case "werr-sticky":
-		n.trs[victim].FailWriteAt(n.trs[victim].WriteCalls()+1, errWrite, true)
+		n.trs[victim].FailWriteAt(n.trs[victim].WriteCalls()+1, werr, true)
 	case "werr-partial-once":
 		n.trs[victim].FailPartial(true)
-		n.trs[victim].FailWriteAt(n.trs[victim].WriteCalls()+1, errWrite, false)
+		n.trs[victim].FailWriteAt(n.trs[victim].WriteCalls()+1, werr, false)
 	case "unencodable:raw-id":
 		_ = n.node.WriteMessageAll(&message.MessageRaw{ID: 99999, Payload: []byte{1, 2}})
 	case "unencodable:raw-id-to":
@@ -336,7 +352,7 @@ func c13fail(rep *vh.Report, seed uint64, idx int, class string, pos int) {
 			func() int64 { return int64(tr.WriteCalls()) + n.cons.nEvents() }, 1200*time.Millisecond)
 		acc, att := later()
 		closed := ti == victim && atomic.LoadInt64(&closedN) != 0
-		wit := map[string]interface{}{"class": class, "position": pos, "channel": ti, "victim": victim, "later_accepted": acc, "later_attempted": att, "backlog": n.chans[ti].VerifBacklog()}
+		wit := map[string]interface{}{"class": class, "write_error": werr.Error(), "position": pos, "channel": ti, "victim": victim, "later_accepted": acc, "later_attempted": att, "backlog": n.chans[ti].VerifBacklog()}
 		switch {
 		case closed:
 			rep.Count("failure_led_to_close_event", 1)
@@ -474,13 +490,237 @@ func TestC13(t *testing.T) {
 			}
 		}
 	}
+	// every kind of write error for every transport-fault class
+	for _, class := range classes[:3] {
+		for kind := 0; kind < 7; kind++ {
+			for _, pos := range []int{0, 3} {
+				job++
+				if job%nsh == shard {
+					c13fail(rep, seed, job, class, pos, kind)
+				}
+			}
+		}
+	}
 	for i := 0; i < vh.Pick(3, 120); i++ {
 		job++
 		if job%nsh == shard {
 			c13tcp(rep, seed, job)
 		}
 	}
+	for i := 0; i < vh.Pick(2, 40); i++ {
+		job++
+		if job%nsh == shard {
+			c13tcpStall(rep, seed, job, i%2 == 1)
+		}
+	}
 	gomavlib.VerifSetHook(nil)
 	rep.Sample(map[string]interface{}{"stall": "channel 1 of 3 blocks from its 2nd Write; 187 items to all + To(stalled) every 7th", "fault": "unencodable:raw-id at position 5, then 40 valid writes"})
 	rep.Floor("stall_runs", 1)
+}
+
+// c13tcpStall: the peer of a TCP channel keeps the connection up but stops reading until the node's
+// writes run into the write timeout, then reads again. Afterwards the channel is healthy: it must
+// either have been reported closed or deliver later writes (it must not stay open and mute).
+func c13tcpStall(rep *vh.Report, seed uint64, idx int, asClient bool) {
+	if aborted() {
+		return
+	}
+	r := vh.Sub(seed, fmt.Sprintf("c13-tcpstall-%d", idx))
+	hookReset(r.U64(), false, false) // no perturbation: the writer must be held up by the socket, not by the harness
+	port := freeTCPPort()
+	wt := time.Duration(100+r.Intn(100)) * time.Millisecond
+	var ep gomavlib.EndpointConf = gomavlib.EndpointTCPServer{Address: fmt.Sprintf("127.0.0.1:%d", port)}
+	var ln net.Listener
+	if asClient {
+		var err error
+		ln, err = (&net.ListenConfig{Control: smallRcvBuf}).Listen(context.Background(), "tcp4", fmt.Sprintf("127.0.0.1:%d", port))
+		if err != nil {
+			rep.Inconclusive("C13 tcp stall: " + err.Error())
+			return
+		}
+		defer ln.Close()
+		ep = gomavlib.EndpointTCPClient{Address: fmt.Sprintf("127.0.0.1:%d", port)}
+	}
+	node := &gomavlib.Node{Endpoints: []gomavlib.EndpointConf{ep}, Dialect: testDialect, OutVersion: gomavlib.V2, OutSystemID: 22, HeartbeatDisable: true,
+		WriteTimeout: wt, IdleTimeout: 30 * time.Second}
+	if err := node.Initialize(); err != nil {
+		rep.Inconclusive("C13 tcp stall: " + err.Error())
+		return
+	}
+	cons := newConsumer(rep, "C13", "tcp", node)
+	cons.start()
+	var conn net.Conn
+	var err error
+	if asClient {
+		conn, err = ln.Accept()
+	} else {
+		conn, err = (&net.Dialer{Control: smallRcvBuf}).Dial("tcp4", fmt.Sprintf("127.0.0.1:%d", port))
+	}
+	if err != nil {
+		safeClose(rep, node)
+		return
+	}
+	defer conn.Close()
+	if !cons.waitOpen(1, 2*time.Second) {
+		rep.Inconclusive("C13 tcp stall: the channel did not open")
+		safeClose(rep, node)
+		return
+	}
+	ch := cons.openChannels()[0].Ch
+	const fam = 0xD6
+	// the peer is silent: flood until the writer has been held up for longer than the write timeout several times
+	big := make([]byte, 250)
+	for i := range big {
+		big[i] = byte(1 + i%250)
+	}
+	flooded := 0
+	start := time.Now()
+	lastDeq, heldUp := -1, 0
+	lastDeqAt, firstHeld := time.Now(), time.Time{}
+	stalled := false
+	for time.Since(start) < 8*time.Second {
+		for k := 0; k < 50; k++ {
+			flooded++
+			copy(big, []byte{byte(flooded), byte(flooded >> 8), byte(flooded >> 16), 0, 0, 0, 0, fam})
+			sp := &ref.FrameSpec{Version: 2, Sys: 9, Comp: 1, MsgID: 5000, Payload: append([]byte(nil), big...)}
+			ref.Seal(sp, uidLayout.CRCExtra, nil)
+			_ = node.WriteFrameTo(ch, &frame.V2Frame{SystemID: 9, ComponentID: 1, Checksum: sp.Checksum, Message: &message.MessageRaw{ID: 5000, Payload: sp.Payload}})
+		}
+		time.Sleep(time.Millisecond)
+		// the writer is held up by the socket: with items waiting it takes nothing from its queue for (nearly) a whole
+		// write timeout. Three such episodes, or one followed by two more timeouts of flooding, and the peer resumes.
+		deq := hookHits()["ch.writer.dequeue"]
+		if deq != lastDeq || ch.VerifBacklog() == 0 {
+			lastDeq, lastDeqAt = deq, time.Now()
+		} else if time.Since(lastDeqAt) > wt*9/10 {
+			heldUp++
+			if firstHeld.IsZero() {
+				firstHeld = time.Now()
+			}
+			lastDeqAt = time.Now()
+		}
+		if heldUp >= 3 || (heldUp >= 1 && time.Since(firstHeld) > 3*wt) {
+			stalled = true
+			break
+		}
+	}
+	rep.Count("tcp_stall_writes_held_up_for_the_write_timeout", heldUp)
+	if !stalled {
+		rep.Inconclusive("C13 tcp stall: 8 s of output without one write held up for the write timeout")
+		safeClose(rep, node)
+		return
+	}
+	// the peer reads again, for the rest of the scenario
+	if tc, ok := conn.(*net.TCPConn); ok {
+		_ = tc.SetReadBuffer(1 << 20)
+	}
+	var mu sync.Mutex
+	got := map[uint64]bool{}
+	var rx int64
+	var acc []byte
+	// scan takes complete frames with a correct checksum out of acc (mu held). A frame cut by a write that timed out half
+	// way is followed by whole frames: resynchronise byte by byte. final: what looks like the start of a frame that the
+	// received bytes do not complete is skipped too (nothing more will come).
+	scan := func(final bool) {
+		for len(acc) > 0 {
+			f, used, st := ref.ParseAt(acc, 0)
+			if st == ref.ParseIncomplete && !final {
+				return
+			}
+			if st != ref.ParseOK || ref.ChecksumOfWire(acc[:used], uidLayout.CRCExtra) != f.Checksum {
+				acc = acc[1:]
+				continue
+			}
+			if uid, ok := uidOfWire(f); ok {
+				got[uid] = true
+			}
+			acc = acc[used:]
+		}
+	}
+	go func() {
+		buf := make([]byte, 65536)
+		for {
+			n, err := conn.Read(buf)
+			mu.Lock()
+			acc = append(acc, buf[:n]...)
+			scan(false)
+			mu.Unlock()
+			atomic.AddInt64(&rx, int64(n))
+			if err != nil {
+				return
+			}
+		}
+	}()
+	// wait until what is left of the flood has drained (no-progress criterion on the bytes the peer receives)
+	waitFor(func() bool { return false }, func() int64 { return atomic.LoadInt64(&rx) }, 4*wt+300*time.Millisecond)
+	mu.Lock()
+	floodSeen := len(got)
+	mu.Unlock()
+	rep.Count("tcp_stall_flooded", flooded)
+	rep.Count("tcp_stall_flood_items_received", floodSeen)
+	if floodSeen < flooded-65 {
+		rep.Count("tcp_stall_runs_with_discarded_or_timed_out_writes", 1)
+	}
+	// later writes on the now healthy channel
+	const markers = 30
+	for i := 1; i <= markers; i++ {
+		_ = node.WriteMessageTo(ch, &MessageVfUid{Uid: uint64(fam+1)<<56 | uint64(i), Kind: 1, Pad: [3]uint8{1, 2, 3}})
+		time.Sleep(2 * time.Millisecond)
+	}
+	count := func() int {
+		mu.Lock()
+		defer mu.Unlock()
+		c := 0
+		for u := range got {
+			if u>>56 == fam+1 {
+				c++
+			}
+		}
+		return c
+	}
+	closed := func() bool {
+		for _, ci := range cons.allChannels() {
+			if s := cons.snapshot(ci); s.State == 2 {
+				return true
+			}
+		}
+		return false
+	}
+	waitFor(func() bool { return count() >= markers || closed() }, func() int64 { return atomic.LoadInt64(&rx) + cons.nEvents() }, 4*wt+500*time.Millisecond)
+	mu.Lock()
+	save := append([]byte(nil), acc...)
+	scan(true) // the markers may sit behind the head of a frame that a timed-out write left incomplete
+	acc = save
+	mu.Unlock()
+	c := count()
+	wit := map[string]interface{}{"as_client": asClient, "write_timeout_ms": wt.Milliseconds(), "flooded": flooded, "flood_items_received": floodSeen, "markers_received": c, "backlog": ch.VerifBacklog()}
+	switch {
+	case closed():
+		rep.Count("failure_led_to_close_event", 1)
+		for _, ci := range cons.allChannels() {
+			if sn := cons.snapshot(ci); sn.State == 2 {
+				rep.Observe(fmt.Sprintf("tcp stall: channel closed with %v (received %d bytes, %d flood items)", sn.CloseErr, atomic.LoadInt64(&rx), floodSeen))
+			}
+		}
+	case c >= markers-2:
+		rep.Count("tcp_stall_recovered", 1)
+	case c == 0:
+		rep.Violation("what=silent-dead:werr ep=tcp", "after write timeouts against a peer that stopped reading for a while, the channel stays open but nothing written later comes out", wit)
+	default:
+		rep.Violation("what=silent-dead:werr ep=tcp", fmt.Sprintf("after write timeouts against a peer that stopped reading for a while, only %d of %d later writes come out of the open channel", c, markers), wit)
+	}
+	if !safeClose(rep, node) {
+		return
+	}
+	<-cons.done
+	rep.Eval(1)
+	rep.Count("tcp_stall_runs", 1)
+	rep.Distinct("tcpstall", idx, asClient)
+}
+
+// smallRcvBuf makes a socket advertise a small receive window from the handshake on.
+func smallRcvBuf(network, address string, c syscall.RawConn) error {
+	return c.Control(func(fd uintptr) {
+		_ = syscall.SetsockoptInt(int(fd), syscall.SOL_SOCKET, syscall.SO_RCVBUF, 4096)
+	})
 }
